@@ -45,7 +45,7 @@ def main():
     locations = input.locations
     variable = input.variable
 
-    itimes_whole_days = np.unique(np.array([int(t / 86400) * 86400 for t in input.times]))
+    itimes_whole_days = np.unique(np.array([int(np.floor(t / 86400)) * 86400 for t in input.times]))
     otimes = np.zeros(len(itimes_whole_days) * len(args.init_times))
     for i in range(len(args.init_times)):
         I = range(i * len(itimes_whole_days), (i+1) * len(itimes_whole_days))
